@@ -30,7 +30,8 @@
      IntBeyond2p53       traits.rs: integers become Value::Number(self as f64): |v| > 2^53 is rounded to
                          the nearest f64 (ties to even); from_json casts back with saturation (open by design)
    and, only to show that the theorems are not vacuous (sensitivity configs; none of these is in the code):
-     ObjNullDropsRest, DropLastElem, KeyIgnoresRename, TupleAsObject, NoneOmitted, AllowDupKeys.
+     ObjNullDropsRest, DropLastElem, KeyIgnoresRename, RenameMustBeFirst (only the first attribute is looked at),
+     TupleAsObject, NoneOmitted, VecNoneDropped (None elements of a Vec<Option<T>> skipped), AllowDupKeys.
 
    Representation.  TLC cannot compare values of different shapes, so every universe is ONE record shape:
      JSON value  [t, s, b, f, k, c]  t in null|bool|num|str|arr|obj ; numbers are sign s, magnitude bits b
@@ -40,8 +41,9 @@
      field type  [base, a, w]        base in Bool|Int|F64|Str|Ref|Unit, a = integer kind / referenced
                                      declaration, w = wrappers outermost first, e.g. <<"Opt","Vec">>
      declaration [name, kind, via, fields]   kind named|tuple|enum, via derive|map,
-                                     fields = <<[id, hasRen, ren, doc, ty]>> (variants for enums); doc = the field
-                                     carries a doc comment (any attribute other than rename)
+                                     fields = <<[id, hasRen, ren, doc, ty]>> (variants for enums); doc = which other
+                                     attribute the member carries: "" none, "doc" a /// comment before #[rename],
+                                     "allow" #[allow(dead_code)] before #[rename], "after" a /// comment after it
      token       [k, s, j, g]        k in null|comma|colon|expr|brack|brace ; an `expr` token stands for a
                                      complete Rust expression with source s and value j ; g = group content
      literal     [k, e, tc, ks, items]   k in empty|null|expr|arr|obj, e = leaf index, tc = trailing comma *)
@@ -52,7 +54,8 @@ CONSTANTS Dev,        \* deviations in force for the theorems
           BaseSeq,    \* base types offered to the declaration enumerator (sequence of [base, a])
           WrapSeq,    \* wrapper stacks offered (sequence of sequences)
           RenSeq,     \* rename strings offered (sequence)
-          DocSet,     \* {FALSE} or BOOLEAN: may fields carry doc comments
+          DocSet,     \* other attributes a member may carry: subset of {"", "doc", "allow", "after"}
+          IntFull,    \* TRUE: the full integer catalogue (powers of two +-1), FALSE: the core one
           Family,     \* "all": every field type / rename combination; "rot": the rotating family (generation)
           MaxFields,
           MaxDepth, MaxItems, MaxNodes, Leaves   \* literal bound: nesting, items per container, nodes, leaf indices
@@ -173,7 +176,7 @@ Shape(v, ty, P) ==
      ELSE JArr([i \in 1..Len(v.c) |-> Shape(v.c[i], Inner(ty), P)])
   ELSE CASE ty.base = "Bool" -> JBool(v.s)
          [] ty.base = "Int"  -> JNum(v.s, v.b, "")
-         [] ty.base = "F64"  -> JNum(v.s, v.b, v.f)
+         [] ty.base \in {"F64", "F32"} -> JNum(v.s, v.b, v.f)
          [] ty.base = "Str"  -> JStr(v.s)
          [] ty.base = "Ref"  -> ShapeD(v, Lookup(P, ty.a), P)
 ShapeD(v, d, P) ==
@@ -219,7 +222,8 @@ LeafEnv == <<
 >>
 \* member names: a single token tree that has .to_string() (string literal, variable, parenthesised expression)
 KeyCat == << Leaf("\"a\"", "a"), Leaf("key_var", "from var"), Leaf("\"b c\"", "b c"), Leaf("(\"p\")", "p"),
-             Leaf("\"q\\\"é\"", "q\"é"), Leaf("\"\"", ""), Leaf("key_string", "owned"), Leaf("\"{:,}\"", "{:,}") >>
+             Leaf("\"q\\\"é\"", "q\"é"), Leaf("\"\"", ""), Leaf("key_string", "owned"), Leaf("\"{:,}\"", "{:,}"),
+             Leaf("\"t\\tn\\n\\\\ \\u{1}\"", "t\tn\n\\ ") >>
 
 Lit(k, e, tc, ks, items) == [k |-> k, e |-> e, tc |-> tc, ks |-> ks, items |-> items]
 NoLit     == Lit("none", 0, FALSE, <<>>, <<>>)
@@ -343,10 +347,11 @@ RECURSIVE ToJI(_, _, _, _), ToJD(_, _, _, _)
 ToJI(v, ty, P, D) ==
   IF ty.w # <<>> THEN
      IF Head(ty.w) = "Opt" THEN (IF v.t = "none" THEN JNull ELSE ToJI(v.c[1], Inner(ty), P, D))   \* impl IntoJson for Option<T>
-     ELSE JArr([i \in 1..Len(v.c) |-> ToJI(v.c[i], Inner(ty), P, D)])                             \* impl IntoJson for Vec<T>
+     ELSE LET keep == IF "VecNoneDropped" \in D THEN SelectSeq(v.c, LAMBDA x : x.t # "none") ELSE v.c IN
+          JArr([i \in 1..Len(keep) |-> ToJI(keep[i], Inner(ty), P, D)])                          \* impl IntoJson for Vec<T>
   ELSE CASE ty.base = "Bool" -> JBool(v.s)
          [] ty.base = "Int"  -> JNum(v.s, IF "IntBeyond2p53" \in D THEN RoundF64(v.b) ELSE v.b, "")   \* Value::Number(self as f64)
-         [] ty.base = "F64"  -> JNum(v.s, v.b, v.f)
+         [] ty.base \in {"F64", "F32"} -> JNum(v.s, v.b, v.f)
          [] ty.base = "Str"  -> JStr(v.s)
          [] ty.base = "Ref"  -> ToJD(v, Lookup(P, ty.a), P, D)
 
@@ -355,7 +360,8 @@ RECURSIVE MemberToks(_, _, _, _, _)
 MemberToks(v, d, P, D, i) ==
   IF i > Len(d.fields) THEN <<>>
   ELSE LET fl  == d.fields[i]
-           key == IF d.via = "derive" /\ "KeyIgnoresRename" \in D THEN fl.id ELSE Key(fl)
+           key == IF d.via = "derive" /\ ("KeyIgnoresRename" \in D \/ ("RenameMustBeFirst" \in D /\ fl.doc \in {"doc", "allow"}))
+                  THEN fl.id ELSE Key(fl)
            val == ToJI(v.c[i], fl.ty, P, D)
            omit == "NoneOmitted" \in D /\ fl.ty.w # <<>> /\ Head(fl.ty.w) = "Opt" /\ v.c[i].t = "none"
        IN (IF omit THEN <<>>
@@ -378,7 +384,7 @@ ToJD(v, d, P, D) ==
 DeriveCompiles(d, D) ==
   ~ /\ "DocAttrPanics" \in D
     /\ d.via = "derive" /\ d.kind \in {"named", "enum"}
-    /\ \E i \in 1..Len(d.fields) : d.fields[i].doc /\ ~d.fields[i].hasRen
+    /\ \E i \in 1..Len(d.fields) : d.fields[i].doc # "" /\ ~d.fields[i].hasRen
 ProgCompiles(P, D) == \A i \in 1..Len(P) : DeriveCompiles(P[i], D)
 
 ROk(v) == [ok |-> TRUE, v |-> v]
@@ -401,7 +407,7 @@ FromJI(j, ty, P) ==
                IF \A i \in 1..Len(rs) : rs[i].ok THEN ROk(VVec([i \in 1..Len(rs) |-> rs[i].v])) ELSE RErr
   ELSE CASE ty.base = "Bool" -> IF j.t = "bool" THEN ROk(VBool(j.s)) ELSE RErr
          [] ty.base = "Int"  -> IF j.t = "num" THEN ROk(CastInt(j, ty.a)) ELSE RErr
-         [] ty.base = "F64"  -> IF j.t = "num" THEN ROk(VF64(j.s, j.b, j.f)) ELSE RErr
+         [] ty.base \in {"F64", "F32"} -> IF j.t = "num" THEN ROk(VF64(j.s, j.b, j.f)) ELSE RErr   \* f32: exact for the catalogue values
          [] ty.base = "Str"  -> IF j.t = "str" THEN ROk(VStr(j.s)) ELSE RErr
          [] ty.base = "Ref"  -> FromJD(j, Lookup(P, ty.a), P)
 FromJD(j, d, P) ==
@@ -441,26 +447,54 @@ ObserveLit(n, D) == LET r == MacroOf(n, D) IN
 (***************************************************************************)
 StrCat == << "", "plain", "q\"uote \\ back", "né € 😀", "a/b\tc\nd", "{\"k\": [1, null]}" >>
 F64Cat == << VF64("", <<>>, ""), VF64("", <<>>, "5"), VF64("-", <<1>>, "25"), VF64("-", <<1, 1, 1>>, ""),
-             VF64("", <<1,1,1,1,0,0,0,1,0,0,1,0,0,0,0,0,0>>, "789"), VF64("", <<>>, "1") >>     \* 0, 0.5, -1.25, -7, 123456.789, 0.1
+             VF64("", <<1,1,1,1,0,0,0,1,0,0,1,0,0,0,0,0,0>>, "789"), VF64("", <<>>, "1"),     \* 0, 0.5, -1.25, -7, 123456.789, 0.1
+             VF64("", Pow2(53), ""), VF64("-", Pred(Pow2(53)), ""), VF64("", Pow2(32), "5") >>  \* 2^53, -(2^53-1), 2^32+0.5
+\* f32 values that are exact in binary32 and have a short decimal (so that "the documented number" is unambiguous)
+F32Cat == << VF64("", <<>>, ""), VF64("", <<>>, "5"), VF64("-", <<1>>, "25"), VF64("", Pow2(24), ""),
+             VF64("", Pred(Pow2(24)), ""), VF64("-", <<1, 1, 1>>, ""), VF64("", <<>>, "375") >>
+\* Integers.  Core catalogue: MAX, MIN, MIN+1, MAX-1, 0, -1, 1 and the f64 mantissa limit 2^53, 2^53+1, -(2^53+1).
+\* Full catalogue (IntFull): in addition 2^e-1, 2^e, 2^e+1 and, for signed kinds, -(2^e), -(2^e+1) for
+\* e in 8, 16, 24, 31, 32, 63, 64 - every one that lies in the range of the kind.
+FitsPos(kind, m) == ~Less(MaxMag(kind), m)
+FitsNeg(kind, m) == Signed(kind) /\ ~Less(MinMag(kind), m)
+PowExps == <<8, 16, 24, 31, 32, 63, 64>>
+PowVals(kind) ==
+  LET pos == [i \in 1..(3 * Len(PowExps)) |->
+                LET p == Pow2(PowExps[((i - 1) \div 3) + 1]) IN
+                CASE (i - 1) % 3 = 0 -> Pred(p) [] (i - 1) % 3 = 1 -> p [] OTHER -> Inc(p)]
+      neg == [i \in 1..(2 * Len(PowExps)) |->
+                LET p == Pow2(PowExps[((i - 1) \div 2) + 1]) IN IF (i - 1) % 2 = 0 THEN p ELSE Inc(p)]
+      ps == SelectSeq(pos, LAMBDA m : FitsPos(kind, m))
+      ns == SelectSeq(neg, LAMBDA m : FitsNeg(kind, m))
+  IN [i \in 1..Len(ps) |-> VInt("", ps[i])] \o [i \in 1..Len(ns) |-> VInt("-", ns[i])]
 IntVals(kind) ==
   LET n == IntBits(kind)  mx == MaxMag(kind)  p53 == Pow2(53) IN
   <<VInt("", mx)>>
   \o (IF Signed(kind) THEN <<VInt("-", MinMag(kind))>> ELSE <<VInt("", <<>>)>>)
   \o (IF n > 54 THEN <<VInt("", Inc(p53))>> ELSE <<>>)
   \o (IF Signed(kind) THEN <<VInt("", <<>>), VInt("-", <<1>>)>> ELSE <<>>)
-  \o <<VInt("", <<1>>)>>
-  \o (IF n > 54 THEN <<VInt("", p53), VInt("", Pred(mx))>> \o (IF Signed(kind) THEN <<VInt("-", Inc(p53))>> ELSE <<>>)
-      ELSE <<>>)
+  \o <<VInt("", <<1>>), VInt("", Pred(mx))>>
+  \o (IF Signed(kind) THEN <<VInt("-", Pred(MinMag(kind)))>> ELSE <<>>)                      \* MIN + 1
+  \o (IF n > 54 THEN <<VInt("", p53)>> \o (IF Signed(kind) THEN <<VInt("-", Inc(p53))>> ELSE <<>>) ELSE <<>>)
+  \o (IF IntFull THEN PowVals(kind) ELSE <<>>)
 
 RECURSIVE Vals(_, _), DeclVals(_, _)
 Vals(ty, P) ==
   IF ty.w # <<>> THEN
      LET in == Vals(Inner(ty), P) IN
      IF Head(ty.w) = "Opt" THEN <<VNone>> \o [i \in 1..Len(in) |-> VSome(in[i])]
-     ELSE <<VVec(<<>>), VVec(in), VVec(<<in[1]>>)>> \o (IF Len(in) >= 2 THEN <<VVec(<<in[2], in[1], in[2]>>)>> ELSE <<>>)
+     ELSE \* empty; everything when the catalogue is small; then windows of three consecutive catalogue values
+          \* (cyclic) starting at every other position and at the last two: every value occurs in a Vec, and the
+          \* first value (None for Option) occurs first, in the middle and last
+          LET L == Len(in)
+              Win(k) == VVec(<<in[k], in[(k % L) + 1], in[((k + 1) % L) + 1]>>)
+              starts == SelectSeq([k \in 1..L |-> k], LAMBDA k : k % 2 = 1 \/ k >= L - 1) IN
+          <<VVec(<<>>)>> \o (IF L <= 6 THEN <<VVec(in)>> ELSE <<>>) \o <<VVec(<<in[1]>>)>>
+          \o (IF L >= 3 THEN [i \in 1..Len(starts) |-> Win(starts[i])] ELSE IF L = 2 THEN <<VVec(<<in[2], in[1], in[2]>>)>> ELSE <<>>)
   ELSE CASE ty.base = "Bool" -> <<VBool("false"), VBool("true")>>
          [] ty.base = "Int"  -> IntVals(ty.a)
          [] ty.base = "F64"  -> F64Cat
+         [] ty.base = "F32"  -> F32Cat
          [] ty.base = "Str"  -> [i \in 1..Len(StrCat) |-> VStr(StrCat[i])]
          [] ty.base = "Ref"  -> DeclVals(Lookup(P, ty.a), P)
 \* values of a declared type: every variant; for structs the "diagonals" of the field catalogues
@@ -479,14 +513,20 @@ AllVals(d, P) ==
 (***************************************************************************)
 (* A library of declarations that generated declarations may refer to      *)
 (***************************************************************************)
-RenCat == << "a b", "with \"quotes\"", "back\\slash", "naïve é", "日本", "{", "k:v", "", "a", "[1, null]" >>
+\* rename strings: ordinary, JSON-special, then one representative per Unicode class at the start / the end / both ends
+\* (white space ASCII and non-ASCII, C1 control, DEL, line separator), escapes, lone delimiters, only blanks,
+\* case mappings that change length, combining mark, private use, non-ASCII digits and numerics, non-BMP
+RenCat == << "a b", "with \"quotes\"", "back\\slash", "naïve é", "日本", "{", "k:v", "", "a", "[1, null]",
+             " lead", "trail ", " both ", "\ttab\n", " nb ", "c1", " ls", "　ideo　", " og",
+             "ß", "İ", "ﬁ", "é", "", "٣", "１", "²½Ⅷ", "", "'", "=", ",", ":", "  ", "\"", "\\", "𝟙",
+             "A", "Value", "VALUE", "value " >>
 Lib == <<
-  Decl("E", "enum", "derive", <<Field("A", FALSE, "", FALSE, UnitTy), Field("Bee", TRUE, "b é", TRUE, UnitTy), Field("C3", FALSE, "", FALSE, UnitTy)>>),
-  Decl("P", "tuple", "derive", <<Field("0", FALSE, "", FALSE, Ty("Int", "i8", <<>>)), Field("1", FALSE, "", TRUE, Ty("Str", "", <<>>))>>),
-  Decl("N", "named", "derive", <<Field("x", FALSE, "", TRUE, Ty("Int", "u64", <<"Opt">>)),
-                                 Field("y", TRUE, "the \"y\"", FALSE, Ty("Ref", "E", <<"Vec">>))>>),
-  Decl("M", "named", "map",    <<Field("p", TRUE, "p p", TRUE, Ty("Ref", "P", <<>>)),
-                                 Field("e", TRUE, "e", FALSE, Ty("Ref", "E", <<"Opt">>))>>)
+  Decl("E", "enum", "derive", <<Field("A", FALSE, "", "", UnitTy), Field("Bee", TRUE, "b é", "doc", UnitTy), Field("C3", FALSE, "", "allow", UnitTy)>>),
+  Decl("P", "tuple", "derive", <<Field("0", FALSE, "", "", Ty("Int", "i8", <<>>)), Field("1", FALSE, "", "doc", Ty("Str", "", <<>>))>>),
+  Decl("N", "named", "derive", <<Field("x", FALSE, "", "doc", Ty("Int", "u64", <<"Opt">>)),
+                                 Field("y", TRUE, "the \"y\"", "after", Ty("Ref", "E", <<"Vec">>))>>),
+  Decl("M", "named", "map",    <<Field("p", TRUE, "p p", "doc", Ty("Ref", "P", <<>>)),
+                                 Field("e", TRUE, "e", "", Ty("Ref", "E", <<"Opt">>))>>)
 >>
 Refs(d) == { d.fields[i].ty.a : i \in { h \in 1..Len(d.fields) : d.fields[h].ty.base = "Ref" } }
 LibRefs(names) == names \cup UNION { Refs(Lookup(Lib, nm)) : nm \in names }
@@ -536,7 +576,7 @@ DeclAddField ==
             /\ i > 1 => ti = ((first + i - 2) % NFT) + 1
             /\ (cur.kind = "named" /\ cur.via = "derive") => (hr <=> ((ti + i) % 3 # 0))
             /\ hr => rn = ((ti + i) % Len(RenSeq)) + 1
-            /\ dc <=> ((ti + 2 * i) % 4 = 0)
+            /\ dc = (CASE (ti + 2 * i) % 8 = 0 -> "doc" [] (ti + 2 * i) % 8 = 3 -> "allow" [] (ti + 2 * i) % 8 = 6 -> "after" [] OTHER -> "")
        /\ LET id == IF cur.kind = "tuple" THEN ToString(i - 1) ELSE FieldIds[i]
               \* rotating family: every third json_map! key is the identifier itself
               ren == IF cur.via = "map" /\ Family = "rot" /\ (ti + i) % 3 = 0 THEN id ELSE RenSeq[rn]
@@ -553,7 +593,7 @@ DeclAddVariant ==
   /\ LET i == Len(cur.fields) + 1 IN
      \E hr \in BOOLEAN : \E rn \in 1..Len(RenSeq) : \E dc \in DocSet :
        /\ ~hr => rn = 1
-       /\ Family = "rot" => (dc <=> ((first + i) % 3 = 0))
+       /\ Family = "rot" => dc = (CASE (first + i) % 6 = 0 -> "doc" [] (first + i) % 6 = 2 -> "allow" [] (first + i) % 6 = 4 -> "after" [] OTHER -> "")
        /\ (Family = "rot" /\ i > 1) =>
             /\ hr <=> (IF first = 0 THEN i % 2 = 0 ELSE i % 2 = 1)
             /\ hr => rn = ((first + i - 2) % Len(RenSeq)) + 1
@@ -565,7 +605,8 @@ DeclAddVariant ==
 
 Frame(k) == Lit(k, 0, FALSE, <<>>, <<>>)
 Room == IF stk = <<>> THEN TRUE ELSE Len(Last(stk).items) < MaxItems
-AddItem(fr, n) == [fr EXCEPT !.items = Append(@, n), !.ks = IF fr.k = "obj" THEN Append(@, Len(@) + 1) ELSE @]
+\* member names rotate through the whole key catalogue with the node counter (distinct within one literal of the bound)
+AddItem(fr, n) == [fr EXCEPT !.items = Append(@, n), !.ks = IF fr.k = "obj" THEN Append(@, (nn % Len(KeyCat)) + 1) ELSE @]
 Put(n) ==   \* a finished node goes into the innermost open container, or is the whole literal
   IF stk = <<>> THEN /\ lit' = n /\ stk' = stk
   ELSE /\ lit' = lit
